@@ -734,3 +734,426 @@ func c06TLSPrefixes(c *Ctx, r *Report, rule string) {
 		r.check(!parsed && strings.Contains(ret, "ErrConsumedAllPrefetchedBytes"), rule, fnName, name, c.pos(fn.Pos()), "need more", fmt.Sprintf("on this prefix of a hello that matches when it has arrived completely the matcher answers (%s), hello parsed: %v - a definite verdict on bytes that have not arrived: the route is passed over (or taken) depending on how the client's bytes were split into segments", ret, parsed))
 	}
 }
+
+// c11CleanupPairs: the peer table counts references. Provision takes one reference per dial address it gets to -
+// it stops at the first address that does not parse - and caddy calls Cleanup also for a handler whose Provision
+// failed. Cleanup must therefore give back exactly the references that were taken: those of the addresses for which
+// the upstream has a peer. Giving back more takes references away from the configuration that is still running: its
+// peers leave the table while in use, and the next configuration starts with fresh counters (failures forgotten,
+// open connections not counted against max_connections).
+func c11CleanupPairs(c *Ctx, r *Report, rule string) {
+	r.rule(rule, "proxy Cleanup (path evaluation over handlers whose provisioning got to 2+1, 2+0, 1+0 and 0+0 of the dial addresses of two upstreams): the table entries released are exactly those of the addresses provisioned - one Delete per peer the upstream holds, with the key provision stored it under - also after a Provision that failed half way", 4)
+	fnName := "modules/l4proxy.(*Handler).Cleanup"
+	fn := c.Fn(fnName)
+	if fn == nil {
+		r.bad(rule, fnName, "exists", "-", "function not found")
+		return
+	}
+	dials := [][]string{{"a.example:1", "b.example:2"}, {"c.example:3"}}
+	for _, got := range [][2]int64{{2, 1}, {2, 0}, {1, 0}, {0, 0}} {
+		name := fmt.Sprintf("provisioned %d of 2 and %d of 1 addresses", got[0], got[1])
+		heap := map[string]SV{"h.Upstreams": symSlice("ups", 2)}
+		var want []string
+		for ui, ds := range dials {
+			u := fmt.Sprintf("u%d", ui)
+			heap[fmt.Sprintf("ups[%d]", ui)] = symRef(u, false)
+			heap[u+".Dial"] = symSlice(u+".dial", int64(len(ds)))
+			for di, d := range ds {
+				heap[fmt.Sprintf("%s.dial[%d]", u, di)] = symStr(d)
+				if int64(di) < got[ui] {
+					want = append(want, d)
+				}
+			}
+			heap[u+".peers"] = symSlice(u+".peers", got[ui])
+			for pi := int64(0); pi < got[ui]; pi++ {
+				heap[fmt.Sprintf("%s.peers[%d]", u, pi)] = symRef(fmt.Sprintf("%s.peer%d", u, pi), false)
+			}
+		}
+		sc := &Scenario{Name: name, MaxVisit: 8, MaxPaths: 200, Params: map[string]SV{"recv": symRef("h", false)}, Heap: heap}
+		var deleted []string
+		sc.Call = func(callee string, args []SV, ev *symEval, st *symState) (SV, bool) {
+			if strings.HasSuffix(callee, "UsagePool).Delete") && len(args) >= 2 {
+				k := args[1]
+				d := k.Desc
+				if k.K == "str" && k.Known {
+					d = k.S
+				} else if in, ok := st.heap[k.Desc]; ok && in.K == "str" && in.Known {
+					d = in.S
+				}
+				deleted = append(deleted, d)
+				return symTuple(symBool(true), symNil()), true
+			}
+			return SV{}, false
+		}
+		paths, err := evalPaths(fn, sc)
+		if err != nil || len(paths) != 1 {
+			r.bad(rule, fnName, name, c.pos(fn.Pos()), fmt.Sprintf("undecided: %d paths, %v", len(paths), err))
+			continue
+		}
+		for i, d := range deleted {
+			// a key boxed into an interface: "make(string <- x)"-like descriptions end with the string itself
+			for _, ds := range dials {
+				for _, w := range ds {
+					if strings.Contains(d, w) {
+						deleted[i] = w
+					}
+				}
+			}
+		}
+		r.check(strings.Join(deleted, ",") == strings.Join(want, ","), rule, fnName, name, c.pos(fn.Pos()), fmt.Sprintf("releases %q", want),
+			fmt.Sprintf("Cleanup releases the table entries %q, provisioning had stored %q: the references of addresses this handler never got to belong to the configuration that is still running - its peers leave the table while in use, and the next configuration starts them with fresh counters (an upstream inside its failure window is back in rotation, open connections no longer count against max_connections)", deleted, want))
+	}
+}
+
+// c14DNSNameCase: domain names compare without regard to case (RFC 1035 2.3.3, RFC 4343), and the rule documentation
+// promises the rules the name "in lower case ending with a dot". The wire keeps the client's spelling (miekg/dns
+// unpacks it as sent; resolvers randomise it on purpose), so the name has to be lowered before the rules see it.
+func c14DNSNameCase(c *Ctx, r *Report, rule string) {
+	r.rule(rule, "dns matcher: the question name handed to the allow and deny rules is the result of strings.ToLower (names are case-insensitive and the rule documentation promises lower case; the wire carries the client's spelling): ExAmPle.COM. is judged like example.com.", 2)
+	fnName := "modules/l4dns.(*MatchDNS).Match"
+	fn := c.Fn(fnName)
+	if fn == nil {
+		r.bad(rule, fnName, "exists", "-", "function not found")
+		return
+	}
+	n := 0
+	for g := range c.reachSync(fn) {
+		if g.Pkg != fn.Pkg {
+			continue
+		}
+		for _, ci := range callsIn(g) {
+			cal := ci.Common().StaticCallee()
+			if cal == nil || fname(cal) != "modules/l4dns.(*MatchDNSRules).Match" || len(ci.Common().Args) < 5 {
+				continue
+			}
+			n++
+			var bad []string
+			var judge func(in *ssa.Function, v ssa.Value, d int)
+			judge = func(in *ssa.Function, v ssa.Value, d int) {
+				for _, o := range origins(v, sliceOpts{}) {
+					if o.Kind == "call" && o.Desc == "strings.ToLower" {
+						continue
+					}
+					// a helper's parameter: what its callers pass
+					if pr, ok := o.V.(*ssa.Parameter); ok && o.Kind == "param" && d < 3 {
+						sites, escapes := c.callSitesOf(in)
+						if idx := paramIndex(in, pr); idx >= 0 && !escapes && len(sites) > 0 {
+							for _, cs := range sites {
+								if idx < len(cs.Common().Args) {
+									judge(cs.Parent(), cs.Common().Args[idx], d+1)
+								}
+							}
+							continue
+						}
+					}
+					bad = append(bad, o.Kind+":"+o.Desc)
+				}
+			}
+			judge(g, ci.Common().Args[4], 0)
+			r.check(len(bad) == 0, rule, fname(g), fmt.Sprintf("rules.Match#%d name", n), c.ipos(ci), "lower-cased", "the rules are given the question name as the client spelled it ("+strings.Join(dedup(bad), ", ")+"): a query for ExAmPle.COM. is not matched by a rule on example.com. - a deny list is passed by changing the case of a letter, an allow list rejects resolvers that randomise case")
+		}
+	}
+	if n == 0 {
+		r.bad(rule, fnName, "rules consulted", c.pos(fn.Pos()), "undecided: no call of the rule lists found")
+	}
+}
+
+// c12Placeholders: "later matchers, placeholders and handlers see the source and destination addresses the header
+// declares". The connection placeholders that WrapConnection derives from the socket's addresses are therefore set
+// again, from the addresses of the connection that is handed on, on every path on which the proxy_protocol handler
+// hands on the connection it built on an accepted header.
+func c12Placeholders(c *Ctx, r *Report, rule string) {
+	r.rule(rule, "proxy_protocol handler: every placeholder that WrapConnection sets from the connection's RemoteAddr()/LocalAddr() is set again - from the same method of the connection built on the accepted header - on every path to the call of next that hands that connection on", 2)
+	wrap := c.Fn("layer4.WrapConnection")
+	fnName := "modules/l4proxyprotocol.(*Handler).Handle"
+	fn := c.Fn(fnName)
+	if wrap == nil || fn == nil {
+		r.bad(rule, fnName, "exists", "-", "WrapConnection or the handler not found")
+		return
+	}
+	// a Replacer.Set whose value is what method m of some connection returns: (key, m)
+	setOf := func(ci ssa.CallInstruction) (key, meth string, on ssa.Value) {
+		if !strings.HasSuffix(calleeID(ci), "caddy/v2.Replacer).Set") || len(ci.Common().Args) < 3 {
+			return "", "", nil
+		}
+		k, ok := ci.Common().Args[1].(*ssa.Const)
+		if !ok || k.Value == nil {
+			return "", "", nil
+		}
+		for _, o := range origins(ci.Common().Args[2], sliceOpts{}) {
+			if call, ok := o.V.(*ssa.Call); ok {
+				name := ""
+				var recv ssa.Value
+				if call.Call.IsInvoke() {
+					name, recv = call.Call.Method.Name(), call.Call.Value
+				} else if cal := call.Call.StaticCallee(); cal != nil && cal.Signature.Recv() != nil && len(call.Call.Args) > 0 {
+					name, recv = cal.Name(), call.Call.Args[0]
+				}
+				if name == "RemoteAddr" || name == "LocalAddr" {
+					return strings.Trim(k.Value.ExactString(), `"`), name, recv
+				}
+			}
+		}
+		return "", "", nil
+	}
+	keys := map[string]string{}
+	for _, ci := range callsIn(wrap) {
+		if k, m, _ := setOf(ci); k != "" {
+			keys[k] = m
+		}
+	}
+	if len(keys) == 0 {
+		r.bad(rule, "layer4.WrapConnection", "address placeholders", c.pos(wrap.Pos()), "undecided: no placeholder set from the connection's addresses found")
+		return
+	}
+	// the calls of next that hand on a connection built on the header's wrapper
+	n := 0
+	for _, ci := range callsIn(fn) {
+		if !isInvoke(ci, "Handle") || len(ci.Common().Args) != 1 {
+			continue
+		}
+		var wrapper ssa.Value
+		for _, o := range origins(ci.Common().Args[0], sliceOpts{}) {
+			if call, ok := o.V.(*ssa.Call); ok && strings.HasSuffix(calleeID(call), "layer4.(*Connection).Wrap") && len(call.Call.Args) == 2 {
+				for _, o2 := range origins(call.Call.Args[1], sliceOpts{}) {
+					if strings.Contains(typeStr(o2.V.Type()), "proxyprotocol.Conn") {
+						wrapper = o2.V
+					}
+				}
+			}
+		}
+		if wrapper == nil {
+			continue
+		}
+		var ks []string
+		for k := range keys {
+			ks = append(ks, k)
+		}
+		sort.Strings(ks)
+		for _, k := range ks {
+			n++
+			m := keys[k]
+			isSet := func(in ssa.Instruction) bool {
+				c2, ok := in.(ssa.CallInstruction)
+				if !ok {
+					return false
+				}
+				k2, m2, on := setOf(c2)
+				if k2 != k || m2 != m || on == nil {
+					return false
+				}
+				return strings.Contains(typeStr(on.Type()), "proxyprotocol.Conn") || derivesFrom(on, wrapper)
+			}
+			target := func(in ssa.Instruction) bool { return in == ssa.Instruction(ci) }
+			hit := pathFromEntryAvoiding(fn, target, isSet)
+			r.check(hit == nil, rule, fnName, "{"+k+"} before next.Handle", c.ipos(ci), "set from the new connection's "+m+"()", "the connection built on the accepted PROXY header is handed on while the placeholder {"+k+"} still holds what WrapConnection took from the socket ("+m+"() of the load balancer's connection): configuration behind the handler that uses the placeholder - an upstream address, a log field, a matcher value - sees the proxy's address, not the one the header declares")
+		}
+	}
+	if n == 0 {
+		r.bad(rule, fnName, "hand-on of the wrapped connection", c.pos(fn.Pos()), "undecided: no call of next with a connection built on the header's wrapper found")
+	}
+}
+
+// c09FreshAfterEnd: "after a client's virtual connection has ended a later datagram from that client is served by a
+// fresh one". An association has ended when its closed channel is closed; the loop learns of it by a notice that it
+// may process later than the client's next datagram. Where the loop finds the association of the datagram in hand
+// closed, that datagram has to start a new association - releasing it drops a datagram that arrived after the end.
+func c09FreshAfterEnd(c *Ctx, r *Report, rule string) {
+	r.rule(rule, "UDP server loop: where the hand-over finds the association closed (its notice not processed yet), the datagram in hand goes to a fresh association - it is not released", 1)
+	const anchor = "layer4.(*Server).servePacket"
+	fn := c.Fn(anchor)
+	if fn == nil {
+		r.bad(rule, anchor, "exists", "-", "function not found")
+		return
+	}
+	n := 0
+	for g := range c.reachSync(fn) {
+		if g.Pkg != fn.Pkg {
+			continue
+		}
+		for _, b := range g.Blocks {
+			for _, in := range b.Instrs {
+				sel, ok := in.(*ssa.Select)
+				if !ok {
+					continue
+				}
+				send, closedIdx := false, -1
+				for i, st := range sel.States {
+					if st.Dir == types.SendOnly && chanID(st.Chan) == "field layer4.packetConn.readCh" {
+						send = true
+					}
+					if st.Dir == types.RecvOnly && chanID(st.Chan) == "field layer4.packetConn.closed" {
+						closedIdx = i
+					}
+				}
+				if !send || closedIdx < 0 {
+					continue
+				}
+				n++
+				// the body of the closed case
+				var idx ssa.Value
+				for _, ref := range *sel.Referrers() {
+					if ex, ok := ref.(*ssa.Extract); ok && ex.Index == 0 {
+						idx = ex
+					}
+				}
+				var body *ssa.BasicBlock
+				cur := sel.Block()
+				for steps := 0; steps < 8 && cur != nil && idx != nil; steps++ {
+					ifi, ok := cur.Instrs[len(cur.Instrs)-1].(*ssa.If)
+					if !ok {
+						break
+					}
+					bo, ok := ifi.Cond.(*ssa.BinOp)
+					if !ok || bo.Op != token.EQL || bo.X != idx {
+						break
+					}
+					k, ok := constInt(bo.Y)
+					if !ok {
+						break
+					}
+					if int(k) == closedIdx {
+						body = cur.Succs[0]
+						break
+					}
+					cur = cur.Succs[1]
+					if int(k) == len(sel.States)-2 && closedIdx == len(sel.States)-1 {
+						body = cur
+						break
+					}
+				}
+				if body == nil {
+					r.bad(rule, anchor, "closed case of the hand-over", c.ipos(sel), "undecided: the body of the case was not found")
+					continue
+				}
+				released := ""
+				seen := map[*ssa.BasicBlock]bool{body: true}
+				work := []*ssa.BasicBlock{body}
+				for len(work) > 0 && released == "" {
+					bb := work[len(work)-1]
+					work = work[:len(work)-1]
+					stop := false
+					for _, x := range bb.Instrs {
+						if ci, ok := x.(ssa.CallInstruction); ok {
+							if kind, _, _ := poolOp(ci); kind == "put" {
+								released = c.ipos(x)
+								break
+							}
+						}
+						if s2, ok := x.(*ssa.Select); ok && s2 != sel {
+							stop = true
+							break
+						}
+						if _, ok := x.(*ssa.MapUpdate); ok {
+							stop = true // a new entry in the table: the fresh association
+							break
+						}
+					}
+					if stop || released != "" {
+						continue
+					}
+					for _, su := range bb.Succs {
+						if !seen[su] {
+							seen[su] = true
+							work = append(work, su)
+						}
+					}
+				}
+				r.check(released == "", rule, anchor, "closed case of the hand-over", c.ipos(sel), "the datagram starts a fresh association", "the hand-over finds the client's association closed and releases the datagram in hand ("+released+"): a datagram that arrives after the association has ended, but before the loop has processed its close notice, is dropped instead of being served by a fresh association")
+			}
+		}
+	}
+	if n == 0 {
+		r.bad(rule, anchor, "closed case of the hand-over", c.pos(fn.Pos()), "undecided: the hand-over select with a closed case was not found")
+	}
+}
+
+// c12HeaderExamined: a PROXY header may declare no addresses (v1 "PROXY UNKNOWN", v2 LOCAL): the receiver then has to
+// go on with the connection's own addresses. The library's wrapper answers a v1 UNKNOWN header with the empty
+// address ":0" (HeaderV1{}.SrcAddr() is a non-nil &net.TCPAddr{}), so a handler that hands the wrapper on without
+// looking at the header it parsed presents ":0" to later matchers and handlers.
+func c12HeaderExamined(c *Ctx, r *Report, rule string) {
+	r.rule(rule, "proxy_protocol handler: the header that ProxyHeader() returns is looked at before the connection is handed on (a header without addresses - v1 UNKNOWN - must leave the connection's own addresses in force; the library's wrapper reports ':0' for it)", 1)
+	const anchor = "modules/l4proxyprotocol.(*Handler).Handle"
+	fn := c.Fn(anchor)
+	if fn == nil {
+		r.bad(rule, anchor, "exists", "-", "function not found")
+		return
+	}
+	n := 0
+	for g := range c.reachSync(fn) {
+		if g.Pkg != fn.Pkg {
+			continue
+		}
+		for _, ci := range callsIn(g) {
+			if !strings.HasSuffix(calleeID(ci), "proxyprotocol.Conn).ProxyHeader") {
+				continue
+			}
+			n++
+			used := false
+			if v, ok := ci.(ssa.Value); ok && v.Referrers() != nil {
+				for _, ref := range *v.Referrers() {
+					if ex, ok := ref.(*ssa.Extract); ok && ex.Index == 0 && ex.Referrers() != nil {
+						for _, r2 := range *ex.Referrers() {
+							if _, dbg := r2.(*ssa.DebugRef); !dbg {
+								used = true
+							}
+						}
+					}
+				}
+			}
+			r.check(used, rule, anchor, "header examined", c.ipos(ci), "the parsed header is looked at", "the header returned by ProxyHeader() is discarded and the library's wrapper is handed on as it is: for a v1 'PROXY UNKNOWN' header (no addresses declared; HAProxy sends it for its own checks) RemoteAddr() and LocalAddr() of the connection become ':0' instead of staying the socket's addresses - remote_ip and local_ip matchers behind the handler fail with 'invalid remote IP address' and the connection is dropped")
+		}
+	}
+	if n == 0 {
+		r.bad(rule, anchor, "header examined", c.pos(fn.Pos()), "undecided: no call of ProxyHeader found")
+	}
+}
+
+// c15AsymmetricCodec: "that JSON loads". A value whose type reads itself from JSON with a method of its own
+// (UnmarshalJSON) but is written by the default encoding (no MarshalJSON, no MarshalText) is written in a form it
+// cannot read when the two differ - caddytls.PublicKeyAlgorithm reads "rsa" and is written as 1. A Caddyfile parser
+// that fills such a value adapts to JSON that does not load.
+func c15AsymmetricCodec(c *Ctx, r *Report, rule string) {
+	r.rule(rule, "Caddyfile parsers fill no value of a type that has UnmarshalJSON but neither MarshalJSON nor MarshalText (it is written by the default encoding in a form its own reader may refuse: the adapted JSON does not load)", 1)
+	var roots []*ssa.Function
+	for _, fn := range c.Funcs {
+		if fn.Name() == "UnmarshalCaddyfile" || strings.HasPrefix(fn.Name(), "ParseCaddyfile") || fn.Name() == "parseLayer4" {
+			roots = append(roots, fn)
+		}
+	}
+	hasMethod := func(t types.Type, name string) bool {
+		for _, tt := range []types.Type{t, types.NewPointer(t)} {
+			ms := types.NewMethodSet(tt)
+			for i := 0; i < ms.Len(); i++ {
+				if ms.At(i).Obj().Name() == name {
+					return true
+				}
+			}
+		}
+		return false
+	}
+	n, checked := 0, 0
+	for _, fn := range sortedFuncs(c.reach(roots)) {
+		if fn.Pkg == nil || !strings.HasPrefix(fn.Pkg.Pkg.Path(), modPath) {
+			continue
+		}
+		for _, ci := range callsIn(fn) {
+			cal := ci.Common().StaticCallee()
+			if cal == nil || cal.Name() != "UnmarshalJSON" || cal.Signature.Recv() == nil {
+				continue
+			}
+			checked++
+			t := deref(cal.Signature.Recv().Type())
+			if hasMethod(t, "MarshalJSON") || hasMethod(t, "MarshalText") {
+				r.ok(rule, fname(fn), "fills "+typeStr(t), c.ipos(ci), "the type writes itself as it reads itself")
+				continue
+			}
+			n++
+			r.bad(rule, "Caddyfile parsers", "fills "+typeStr(t), c.ipos(ci), "the parser ("+fname(fn)+") fills a "+typeStr(t)+" from its Caddyfile spelling; the type reads that spelling from JSON (UnmarshalJSON) but is written by the default encoding (no MarshalJSON): the adapted configuration holds a form the type's own reader refuses, so the JSON the documented syntax adapts to does not load")
+		}
+	}
+	if checked == 0 {
+		r.ok(rule, "Caddyfile parsers", "custom readers", "-", "no parser fills a value through its UnmarshalJSON")
+	}
+}
